@@ -280,14 +280,14 @@ def run(facts, rep, ctx):
         if "fmt::Debug" in b.name or "fmt::Display" in b.name or "std::error::Error" in b.name:
             continue
         is_parser = bid in pids
-        analyse_body(facts, rep, b, is_parser, (R1, R2, R3, R4, R5))
+        analyse_body(facts, rep, b, is_parser, (R1, R2, R3, R4, R5), reach=pids | sids)
 
 
 PANIC_FNS = ("core::panicking::panic", "core::panicking::panic_fmt", "core::panicking::panic_explicit", "std::rt::begin_panic",
              "core::panicking::unreachable_display", "core::panicking::panic_nounwind", "core::panicking::assert_failed")
 
 
-def analyse_body(facts, rep, b, is_parser, rules):
+def analyse_body(facts, rep, b, is_parser, rules, reach=None):
     R1, R2, R3, R4, R5 = rules
     P = Prov(b)
     cd = None
@@ -338,6 +338,28 @@ def analyse_body(facts, rep, b, is_parser, rules):
                     rep.violation(R3, b.name, "alloc:%s" % fmt(norm(term))[:50], "%s allocates %s bytes/elements taken from the input (up to %s) before checking it against the buffer" % (b.name.rsplit("::", 1)[-1], fmt(norm(term))[:70], hexs(hi)), where)
             elif "input" in tags:
                 rep.ok(R3, {"fn": b.name, "alloc": fmt(norm(term))[:60], "max": hi})
+            elif "param" in tags and hi > (1 << 20):
+                # sized by a parameter: follow it to the callers (one level) inside the reachable set
+                pidx = [x[1] for x in walk(term) if x[0] == "param"]
+                flagged = False
+                for cb, cbb in facts.callers_of(b.id):
+                    if reach is not None and cb.id not in reach:
+                        continue
+                    ct = cb.blocks[cbb]["term"]
+                    CP = Prov(cb)
+                    for pi in pidx:
+                        if pi - 1 < len(ct["args"]):
+                            at = cb.term_of_operand(ct["args"][pi - 1])
+                            alo, ahi, atags = CP.of(at, "usize")
+                            if "input" in atags and ahi > (1 << 20):
+                                ccd = control_deps(cb)
+                                if not bounded_by_len(cb, cbb, at, ccd, CP):
+                                    flagged = True
+                                    rep.violation(R3, b.name, "alloc-via:%s" % cb.name.rsplit("::", 1)[-1],
+                                                  "%s allocates its `%s` argument up front and %s passes an unchecked input field (%s, up to %s)" % (
+                                                      b.name.rsplit("::", 1)[-1], b.local_name(pi), cb.name, fmt(norm(at))[:50], hexs(ahi)), where)
+                if not flagged:
+                    rep.count("alloc_param_sized_callers_bounded")
             else:
                 rep.count("alloc_not_input_sized")
         # ---- raw index of the input slice -----------------------------------------------------------
